@@ -10,6 +10,8 @@ import (
 
 	"github.com/veraison/psatoken"
 	"pgregory.net/rapid"
+
+	"verifharness/icose"
 )
 
 // C12 — JSON round-trips and is equivalent to the CBOR form.
@@ -132,6 +134,32 @@ func c12Check(m *MClaims, c psatoken.IClaims) string {
 	ejs, err := ev.MarshalJSON()
 	if err != nil || !bytes.Equal(ejs, js) {
 		return fmt.Sprintf("Evidence.MarshalJSON differs from EncodeClaimsToJSON: %s / %v", ejs, err)
+	}
+	// ... also on an Evidence with a past: it signed (or decoded) OTHER claims
+	// before these were attached; and after these were signed
+	for _, past := range []string{"signed-other", "decoded-other", "signed-these"} {
+		ev2 := &psatoken.Evidence{}
+		other, _ := baseValid(m.Prof, 2).BuildLiteral()
+		kp := keyFor(icose.EdDSA, 1)
+		switch past {
+		case "signed-other":
+			_ = ev2.SetClaims(other)
+			_, _ = ev2.ValidateAndSign(kp.Signer())
+		case "decoded-other":
+			if tok, serr := icose.SignedToken(kp.Alg, kp.Priv, baseValid(m.Prof, 2).WireBytes()); serr == nil {
+				_ = ev2.UnmarshalCOSE(tok)
+			}
+		}
+		if err := ev2.SetClaims(c); err != nil {
+			return "SetClaims of a valid set failed on a used Evidence: " + err.Error()
+		}
+		if past == "signed-these" {
+			_, _ = ev2.ValidateAndSign(kp.Signer())
+		}
+		ejs2, err := ev2.MarshalJSON()
+		if err != nil || !bytes.Equal(ejs2, js) {
+			return fmt.Sprintf("Evidence.MarshalJSON on an Evidence with a past (%s) is not the JSON encoding of the claims attached now:\n  got  %s (%v)\n  want %s", past, ejs2, err, js)
+		}
 	}
 	return ""
 }
